@@ -38,9 +38,9 @@ func judge(sc *scen.Scenario, res *scen.Result, runErr error) (string, map[strin
 		return "inconclusive", feats, fmt.Errorf("INFRA: resumed session did not connect: %s %s", res.ConnectErr, res.ConnectPanic)
 	}
 	type last struct {
-		id  int64
-		seq int32
-		ok  bool
+		id   int64
+		seq  int32
+		ok   bool
 		ack  bool
 		g    string
 		conn int
